@@ -24,6 +24,12 @@ def scale(tier, quick, thorough):
     return thorough if tier == "thorough" else quick
 
 
+# how many times the families of a property are generated afresh (from the same PRNG, so every
+# round explores other inputs) within one check
+ROUNDS = {"quick": 4, "thorough": 3}
+SINGLE_ROUND = {"C18", "C19", "C20", "C05"}
+
+
 def fam(name, stream, out, **kw):
     d = {"name": name, "stream": stream, "out": out}
     d.update(kw)
@@ -1505,7 +1511,13 @@ def run_property(prop, tier, rng, chk, coq_failed=False):
     f = FAMILIES.get(prop)
     if f is None:
         return []
-    return f(tier, rng, chk)
+    rounds = 1 if prop in SINGLE_ROUND else ROUNDS.get(tier, 1)
+    out = []
+    for rd in range(rounds):
+        for r in f(tier, rng, chk):
+            r["round"] = rd
+            out.append(r)
+    return out
 
 
 def match_known(prop, violation, kf):
